@@ -416,9 +416,11 @@ class RefMap:
         wsm_mine = [a for a in wsm if a.rule.method_ok(method)]
         wsm_def = [a for a in wsm_mine if a.definite and (a.kind == "X" or (a.kind == "L" and not a.rule.trail))]
         ex.wsm = wsm
-        ex.allow_wsm = not direct_def and bool(wsm_mine)
+        ex.allow_wsm = not must and bool(wsm_mine)
         ex.allow_404 = not must and not other_def and not wsm_def
-        ex.allow_405 = not direct_def and (bool(other) or any(not a.rule.method_ok(method) for a in wsm))
+        # 405 only when no rule definitely admits the request for this method - directly OR after merging doubled
+        # slashes (the merged retry must still be made when another method's rule admits the unmerged path)
+        ex.allow_405 = not must and (bool(other) or any(not a.rule.method_ok(method) for a in wsm))
         lo, hi = set(), set()
         for a in other:
             hi |= a.rule.methods
